@@ -3,7 +3,7 @@
    Ints are Z constrained by in64; float results are opaque (no floating-point reasoning here). *)
 (* Floats is deliberately not imported here: the primitive float operations then print fully qualified
    (PrimFloat.add ...) in Print Assumptions, which lists kernel primitives under "Axioms:". *)
-From Miller Require Import Base.Bytes C06.Model C07.Model C07.Proofs C07.ProofsBits C07.ProofsMod C07.ProofsWit.
+From Miller Require Import Base.Bytes C06.Model C07.Model C07.Proofs C07.ProofsBits C07.ProofsMod C07.ProofsWit C07.ProofsMixed.
 Open Scope Z_scope.
 
 (* ---- + and - : exact when the result fits ---- *)
@@ -288,6 +288,33 @@ Theorem C07_mexp_negative_exponent_is_error :
   forall a e m, e < 0 -> eval_tern TMexp (NInt a) (NInt e) (NInt m) = RError.
 Proof. exact mexp_negative_exponent_error. Qed.
 Print Assumptions C07_mexp_negative_exponent_is_error.
+
+(* ---- mixed int/float and float/float operands: the IEEE-754 double operation on the converted operands
+   (to_f (NInt n) = i2f n = float64(n) correctly rounded, to_f (NFloat f) = f).  Definitional in the model -- it is what
+   the *_f_if/_f_fi/_f_ff kernels do; the tie to the code is the bit-exact correspondence ---- *)
+Theorem C07_mixed_arithmetic_is_ieee_on_converted_operands :
+  forall x y, has_float x y ->
+  eval_bin OPlus x y = RFloat (PrimFloat.add (to_f x) (to_f y)) /\ eval_bin OMinus x y = RFloat (PrimFloat.sub (to_f x) (to_f y)) /\
+  eval_bin OTimes x y = RFloat (PrimFloat.mul (to_f x) (to_f y)) /\ eval_bin ODivide x y = RFloat (PrimFloat.div (to_f x) (to_f y)) /\
+  eval_bin ODotPlus x y = RFloat (PrimFloat.add (to_f x) (to_f y)) /\ eval_bin ODotMinus x y = RFloat (PrimFloat.sub (to_f x) (to_f y)) /\
+  eval_bin ODotTimes x y = RFloat (PrimFloat.mul (to_f x) (to_f y)) /\ eval_bin ODotDivide x y = RFloat (PrimFloat.div (to_f x) (to_f y)).
+Proof. exact mixed_arith_ieee. Qed.
+Print Assumptions C07_mixed_arithmetic_is_ieee_on_converted_operands.
+
+Theorem C07_mixed_result_is_never_int :
+  forall op x y n, has_float x y -> eval_bin op x y <> RInt n.
+Proof. exact mixed_never_int. Qed.
+Print Assumptions C07_mixed_result_is_never_int.
+
+Theorem C07_bit_operators_reject_floats :
+  forall op x y, has_float x y -> In op [OAnd; OOr; OXor; OLsh; OSrsh; OUrsh] -> eval_bin op x y = RError.
+Proof. exact bitops_reject_floats. Qed.
+Print Assumptions C07_bit_operators_reject_floats.
+
+Theorem C07_modular_functions_reject_floats :
+  forall op x y z, (exists f, x = NFloat f) \/ (exists f, y = NFloat f) \/ (exists f, z = NFloat f) -> eval_tern op x y z = RError.
+Proof. exact modops_reject_floats. Qed.
+Print Assumptions C07_modular_functions_reject_floats.
 
 (* ---- never crashes.  _partial: every operator except ./ ; the modular functions with a non-zero modulus ---- *)
 Theorem C07_binary_never_panics_partial :
